@@ -162,8 +162,18 @@ def audit(pid, module):
 
 # ---------------------------------------------------------------------------- correspondence
 
+def _big_stack():
+    """the driver recurses over the text of a line: give it the largest stack the sandbox allows"""
+    import resource
+    try:
+        soft, hard = resource.getrlimit(resource.RLIMIT_STACK)
+        resource.setrlimit(resource.RLIMIT_STACK, (hard, hard))
+    except Exception:
+        pass
+
+
 def run_driver(lines):
-    r = subprocess.run([DRV], input="\n".join(lines) + "\n", stdout=subprocess.PIPE, text=True)
+    r = subprocess.run([DRV], input="\n".join(lines) + "\n", stdout=subprocess.PIPE, text=True, preexec_fn=_big_stack)
     return r.stdout.split("\n")
 
 
@@ -195,7 +205,7 @@ def run_shard(target, seed, tier, shard, nshards, features, extra):
     if r.returncode != 0:
         raise SystemExit(f"FRAMEWORK ERROR: harness gen {target['gen']} failed: {r.stderr[-2000:]}")
     with open(hfile) as fin, open(mfile, "w") as fout:
-        r = subprocess.run([DRV], stdin=fin, stdout=fout)
+        r = subprocess.run([DRV], stdin=fin, stdout=fout, preexec_fn=_big_stack)
     if r.returncode != 0:
         raise SystemExit("FRAMEWORK ERROR: driver failed")
     return hfile, mfile
